@@ -518,7 +518,7 @@ func c05(w *core.World, r *core.Report) {
 	}
 
 	// ---- ROLLBACK-COMPLETE
-	r.Rule("ROLLBACK-COMPLETE", 1, "GetRollbackTransaction hands every old intent to AddTransactionIntent and discards the result, so AddTransactionIntent must not be able to refuse one of them: its only failing return is the duplicate-name one (guarded by the 'exists' outcome of the lookup in the intent map). Any other refusal (an input check added for the request path) silently drops that intent from the rollback: Cancel and the timeout then leave it changed.")
+	r.Rule("ROLLBACK-COMPLETE", 1, "GetRollbackTransaction hands every old intent to AddTransactionIntent and discards the result, so AddTransactionIntent must not be able to refuse one of them: its only failing return is the duplicate-name one (guarded by the 'exists' outcome of the lookup in the intent map). Any other refusal (an input check added for the request path) silently drops that intent from the rollback: Cancel and the timeout then leave it changed. Likewise Transaction.AddIntentContent records an entry (map update) before every success return: the snapshot of an intent that did not exist is an empty entry, and without it the created intent is not part of the rollback.")
 	if add := w.Func("pkg/datastore/types", "Transaction", "AddTransactionIntent"); add != nil {
 		n := 0
 		for i, ret := range core.EffectiveReturns(add) {
@@ -544,6 +544,40 @@ func c05(w *core.World, r *core.Report) {
 		}
 		if n == 0 {
 			r.OK("ROLLBACK-COMPLETE", core.Site(add, "cannot fail"), w.Pos(add.Pos()), "")
+		}
+	}
+
+	// the snapshot of an intent that did not exist before is an EMPTY entry: the rollback is built from the entries, and
+	// an intent without one is not part of it (it stays, with its content, after Cancel / timeout)
+	if aic := w.Func("pkg/datastore/types", "Transaction", "AddIntentContent"); aic != nil {
+		var recorders []ssa.Instruction
+		for _, b := range core.Blocks(aic) {
+			for _, in := range b.Instrs {
+				if _, ok := in.(*ssa.MapUpdate); ok {
+					recorders = append(recorders, in)
+				}
+				if c, ok := in.(ssa.CallInstruction); ok && core.CalleeIs(c, "datastore/types.Transaction.AddTransactionIntent") {
+					recorders = append(recorders, in)
+				}
+			}
+		}
+		for i, ret := range core.EffectiveReturns(aic) {
+			ev := errorOperand(ret)
+			if ev == nil || !core.IsNilConst(ev) {
+				continue
+			}
+			rec := false
+			core.WithHost(aic, func() {
+				rec, _ = core.AlwaysBefore(func(in ssa.Instruction) bool {
+					for _, x := range recorders {
+						if x == in {
+							return true
+						}
+					}
+					return false
+				}, ret)
+			})
+			r.Check(rec, "ROLLBACK-COMPLETE", core.Site(aic, "success return#%d after the entry was recorded", i), w.InstrPos(ret), "AddIntentContent reports success without having recorded an entry for the intent (whatever its content, also none): GetRollbackTransaction builds the rollback from the entries, so an intent the transaction created is not removed by Cancel / timeout")
 		}
 	}
 
@@ -778,6 +812,10 @@ func c09(w *core.World, r *core.Report) {
 			}
 		}
 	}
+
+	// ---- EQUAL-LIKE-WITH-LIKE (shared with C12, C15): "unchanged" is decided by EqualTypedValues (highestIsUnequalRunning)
+	r.Rule("EQUAL-LIKE-WITH-LIKE", 3, "(shared with C12 / C15) utils.EqualTypedValues, which decides whether the ruling value drifted from running, compares like with like: an == / != between the results of two argument-less getters of the same receiver type calls the same getter on both sides.")
+	ruleSameGetter(w, r, "EQUAL-LIKE-WITH-LIKE")
 
 	// ---- EQUAL-FIELDS (shared with C02)
 	r.Rule("EQUAL-FIELDS", 3, "(shared with C02) EqualSkipPath compares owner, priority and value.")
